@@ -49,25 +49,25 @@ var avoidKnown = map[string]bool{
 	// the stsc run, which leaves two entries with the same first_chunk. Oracle side: the first entry of
 	// such a pair at the end of the output stsc is ignored (exactly what the repair would remove), all
 	// other checks run on the result.
-	"stsc-duplicate-first-chunk": true,
+	"stsc-duplicate-first-chunk": false, // repaired in /repo (fix: 64bba92)
 	// findEndTime: without stss on the reference track the end time is the END of the first sample at or
 	// after the requested duration (one sample too many). Generator side: the reference track gets an
 	// stss (legal also when all samples are sync samples).
-	"ref-track-without-stss": true,
+	"ref-track-without-stss": false, // repaired in /repo (fix: 21cc500)
 	// a track that keeps no sample (its first sample does not start before the end time, e.g. a track in
 	// a coarse timescale) makes findTrakEnds call SttsBox.GetDecodeTime(0), which panics; the same for
 	// findEndTime when the requested duration maps to tick 0 of the reference track. Generator side:
 	// such cases are not run.
-	"track-keeps-no-sample": true,
+	"track-keeps-no-sample": false, // repaired in /repo (fix: 21cc500)
 	// findEndTime indexes stss.SampleNumber[len-1] without looking at the length: an stss without entries
 	// (a track without sync samples) on the reference track is an index-out-of-range panic. Generator
 	// side: such cases are not run.
-	"ref-track-stss-empty": true,
+	"ref-track-stss-empty": false, // repaired in /repo (fix: 21cc500)
 	// cropStsc asks StscBox.GetSampleDescriptionID for a CHUNK number, the method indexes its per-ENTRY
 	// slice with it (and the slice is not cropped): index out of range, or the description index of the
 	// wrong entry, when a track uses more than one sample description. Generator side: all chunks use
 	// sample description 1.
-	"multiple-sample-descriptions": true,
+	"multiple-sample-descriptions": false, // repaired in /repo (fix: 5b2332b)
 }
 
 type cropCase struct {
